@@ -10,7 +10,7 @@ from ..common import MachineryError
 
 INVS = {
     'C01': ['Inv_C01_Definite', 'Inv_C01_Shape', 'Inv_C01_Undisturbed'],
-    'C03': ['Inv_C03_Reported', 'Inv_C03_NothingElse_KF'],
+    'C03': ['Inv_C03_Reported', 'Inv_C03_NothingElse_KF', 'Inv_C03_BeforeStart'],
     'C06': ['Inv_C06_Prefix', 'Inv_C06_Ends', 'Inv_C06_All'],
     'C16': ['Inv_C16_Synced', 'Inv_C16_Initial'],
 }
